@@ -52,6 +52,7 @@ META = dict(
                  "user callbacks (predicates, datagen, actions) take no bobocep lock other than via "
                  "receiver.add_data (driven)"])
 
+LIFE_ROLES = ("dist-incoming", "dist-outgoing")
 ROLE_MULTI = {"engine": True, "dist-main": False, "dist-incoming": False, "dist-outgoing": False,
               "feeder": True, "pool-worker": True, "control": True, "observer": True}
 
@@ -313,7 +314,7 @@ class System:
         box = {}
 
         def body():
-            spy.set_role(role, ROLE_MULTI[role])
+            spy.set_role(role, ROLE_MULTI[role], life=role in LIFE_ROLES)
             try:
                 box["r"] = fn(*a)
             except Exception as e:                      # noqa
@@ -322,7 +323,13 @@ class System:
                     self.tolerated += 1
                     return
                 self.errors.append("%s: %s: %s" % (role, type(e).__name__, e))
+            finally:
+                spy.end_role()
         t = threading.Thread(target=body, name=role, daemon=True)
+        if role in LIFE_ROLES:
+            # dist.join() waits for the END of the incoming / outgoing thread: here those roles run in this thread
+            spy.JOIN_TARGETS[id(t)] = role
+            setattr(self.dist, "_thread_" + role.split("-")[1], t)
         t.start()
         if wait:
             t.join(120)
@@ -584,7 +591,12 @@ class System:
         self.as_role("observer", loop(lambda: (self.getters(), _time.sleep(0.002))), wait=False)
         if any(f["role"] == "control" for f in targets):
             # the shutdown calls, each on its own thread (one may park or block), once the others had time to park
-            for fn in (self.dist.close, self.engine.close, self.handler.close):
+            if any(f["role"] == "control" and f["req"].startswith("alive:") for f in targets):
+                # the cycle goes through join(): close() then join(), as a user shuts the component down
+                calls = (lambda: (self.dist.close(), self.dist.join()),)
+            else:
+                calls = (self.dist.close, self.engine.close, self.handler.close)
+            for fn in calls:
                 self.as_role("control", lambda fn=fn: (_time.sleep(0.6), fn()), wait=False)
         deadline = _time.time() + seconds
         released_at = None
